@@ -70,7 +70,10 @@ MenuDry == Installs({"cA", "cH"}, B, B, B, B, B) \cup CRDInstalls(B, B, B, B) \c
            \cup Rollbacks({0, 1}, {0, 1}, B, F, B) \cup Uninstalls(B, B, B)
            \cup UpInstalls({"cA", "cR", "cH"}, B, F, B, B, B)
            \cup {[U("install", "cA") EXCEPT !.dry = TRUE, !.clientOnly = TRUE],
-                 [U("install", "cH") EXCEPT !.dry = TRUE, !.clientOnly = TRUE, !.replace = TRUE]}
+                 [U("install", "cH") EXCEPT !.dry = TRUE, !.clientOnly = TRUE, !.replace = TRUE],
+                 \* cQ: a template that calls lookup; only ever rendered client-only (nothing is sent, the answer is empty)
+                 [U("install", "cQ") EXCEPT !.dry = TRUE, !.clientOnly = TRUE],
+                 [U("install", "cQ") EXCEPT !.dry = TRUE, !.clientOnly = TRUE, !.nohooks = TRUE]}
 \* small menu whose operation sequences are enumerated exhaustively: every dry spelling of every operation after
 \* every short real history (incl. an uninstalled last revision)
 MenuDryEnum == Installs({"cH"}, B, F, F, F, B) \cup Upgrades({"cI"}, F, F, {0, 1}, F, F, B)
